@@ -252,6 +252,8 @@ class Interp:
             return self.call_real(f.fn, (f.obj,) + tuple(args), kwargs, owner=f.owner)
         if isinstance(f, NoOp):
             return None
+        if f is object.__init__:
+            return None
         if getattr(f, "_pyvc_callable", False):
             return f(*args, **kwargs)
         ent = MODELS.get(id(f))
@@ -259,9 +261,13 @@ class Interp:
             return ent[1](self, *args, **kwargs)
         if isinstance(f, types.MethodType):
             slf = f.__self__
+            import pathlib as _pl
+            if isinstance(slf, _pl.PurePath):
+                from . import fsmodel
+                return fsmodel.path_method(self, slf, f.__name__, args, kwargs)
             ent2 = MODELS.get(id(f.__func__))
             if ent2 is not None and ent2[0] is f.__func__:
-                return ent2[1](self, *args, **kwargs)
+                return ent2[1](self, slf, *args, **kwargs)
             if getattr(slf, "_pyvc_symbolic", False):
                 return f(*args, **kwargs)
             fn = f.__func__
@@ -273,6 +279,10 @@ class Interp:
             if mm is not None:
                 return mm(self, slf, *args, **kwargs)
             if isinstance(slf, str) and f.__name__ == "format" and (contains_sym(args) or contains_sym(kwargs)):
+                vals = list(args) + list(kwargs.values())
+                if all(isinstance(v, (SInt, str, int)) for v in vals) and not isinstance(slf, SymStr):
+                    from . import fsmodel
+                    return fsmodel.fmt(slf, *args, **kwargs)      # tokenised string (file names)
                 return SymStr("<symbolic message>")
             if isinstance(slf, (list, dict, set, bytearray)) and f.__name__ in (
                     "append", "extend", "get", "pop", "items", "keys", "values", "setdefault",
@@ -923,6 +933,11 @@ class Interp:
                         parts.append("<?>")
                         struct_parts.append(val)
         s = "".join(parts)
+        if symbolic and all(isinstance(v, (str, SInt)) and not isinstance(v, SymStr) for v in struct_parts) \
+                and not any(isinstance(v, ast.FormattedValue) and v.format_spec is not None for v in e.values):
+            # only integers are symbolic: tokenised string (file names, URLs, Range headers)
+            from . import fsmodel
+            return "".join(fsmodel.tok(v) if isinstance(v, SInt) else v for v in struct_parts)
         if symbolic:
             r = SymStr(s)
             r.parts = struct_parts
